@@ -196,7 +196,12 @@ class Narrower:
                 return frozenset(out)
             return None
         if isinstance(e, ast.IfExp):
-            a, b = self.type_of(e.body, env), self.type_of(e.orelse, env)
+            # each arm is read where its side of the test holds
+            try:
+                t_env, f_env = self.narrow_test(e.test, env)
+            except AnalysisError:
+                t_env, f_env = env, env
+            a, b = self.type_of(e.body, t_env), self.type_of(e.orelse, f_env)
             return (a | b) if isinstance(a, frozenset) and isinstance(b, frozenset) else None
         # evaluate sub-expressions for their reads
         for ch in ast.iter_child_nodes(e):
@@ -312,9 +317,21 @@ class Narrower:
             return b, a
         if isinstance(test, ast.BoolOp) and isinstance(test.op, ast.And):
             cur = dict(env)
+            false_env = None
             for v in test.values:
-                cur, _ = self.narrow_test(v, cur)
-            return cur, dict(env)
+                nxt, f_ = self.narrow_test(v, cur)
+                # false: some conjunct failed where the earlier ones held
+                false_env = f_ if false_env is None else self.merge(false_env, f_)
+                cur = nxt
+            return cur, (false_env if false_env is not None else dict(env))
+        if isinstance(test, ast.BoolOp) and isinstance(test.op, ast.Or):
+            # true: one of the disjuncts held (each tried where the earlier ones failed); false: all of them failed
+            cur = dict(env)
+            true_env = None
+            for v in test.values:
+                t_, cur = self.narrow_test(v, cur)
+                true_env = t_ if true_env is None else self.merge(true_env, t_)
+            return (true_env if true_env is not None else dict(env)), cur
         ty_ = self.type_of(test, env)
         if isinstance(test, ast.Attribute) and isinstance(ty_, frozenset):
             never = sorted(c.name for c in ty_ if isinstance(c, ClassInfo) and self.s.is_aggregate(c) and not any(ch.is_list for ch in self.s.spec(c).values()))
